@@ -566,6 +566,9 @@ func (r *Request) success(result interface{}, m *metaObject) {
 
 // error sends an error response as a reply.
 func (r *Request) error(e *Error, m *metaObject) {
+	if e == nil {
+		e = ErrInternalError
+	}
 	data, err := json.Marshal(errorResponse{Error: e, Meta: m})
 	if err != nil {
 		data = responseInternalError
@@ -600,6 +603,9 @@ func (r *Request) executeHandler() {
 
 		switch e := v.(type) {
 		case *Error:
+			if e == nil {
+				e = ErrInternalError
+			}
 			if !r.replied {
 				r.error(e, r.meta())
 				// Return without logging as panicing with a *Error is considered
